@@ -680,6 +680,8 @@ class PCBO(PUBO):
         # use self.__class__ here because PCSO uses this code as well.
         d = super(self.__class__, self).__round__(ndigits)
         d._constraints = self.constraints
+        # d still contains self's ancillas, so it must keep counting from there
+        d._ancilla = self._ancilla
         return d
 
     # override
@@ -706,6 +708,8 @@ class PCBO(PUBO):
             k: [P.subs(*args, **kwargs) for P in v]
             for k, v in self._constraints.items()
         }
+        # d still contains self's ancillas, so it must keep counting from there
+        d._ancilla = self._ancilla
         return d
 
     def add_constraint_eq_zero(self,
